@@ -34,7 +34,7 @@ def generate_cases(c, sd, module, cfg):
     c.cov["states"] += res.distinct; c.cov["transitions"] += res.generated
     # TLC's print order depends on worker scheduling: fix the replay order.  Cases with the same fixed key and COUNT are
     # replayed back to back (bearer, direction, length varying), so that a result depending on the previous call shows.
-    cases.sort(key=lambda e: (e["op"], e["alg"], json.dumps(e["key"]), json.dumps(e["cnt"]), e["nbits"], e["bearer"], e["dir"], e["dpat"]))
+    cases.sort(key=lambda e: (e["grp"] > 0, e["grp"], e["seq"], e["op"], e["alg"], json.dumps(e["key"]), json.dumps(e["cnt"]), e["nbits"], e["bearer"], e["dir"], e["dpat"]))
     return cases
 
 
@@ -43,7 +43,7 @@ def case_of_event(e):
     op = e["op"]
     if op[:3] in ("NEA", "NIA") and op[3:].isdigit():
         op = op[:3]
-    return dict(op=op, alg=e["alg"], key=e["key"], cnt=e["cnt"], bearer=e["bearer"], dir=e["dir"], nbits=e["nbits"], dpat=0, data=e["data"])
+    return dict(op=op, alg=e["alg"], key=e["key"], cnt=e["cnt"], bearer=e["bearer"], dir=e["dir"], nbits=e["nbits"], dpat=0, data=e["data"], grp=0, seq=0)
 
 
 def run_value_conformance(c, kind, trace_module, gen_module, gen_cfg, gen_subst, shards):
@@ -77,14 +77,16 @@ def run_value_conformance(c, kind, trace_module, gen_module, gen_cfg, gen_subst,
         e = json.loads(events[idx]); verdict = t[5]
         if verdict == "out-of-domain":
             raise Infra("the driver made a call outside the domain of the property: %s" % events[idx][:300])
-        cls = dict(value="wrong-output", length="wrong-length", error="unexpected-error", panic="panic").get(verdict, verdict)
+        cls = {"value": "wrong-output", "length": "wrong-length", "error": "unexpected-error", "panic": "panic", "result-changed": "result-changed-by-later-call"}.get(verdict, verdict)
         if verdict == "panic" and e["nbits"] == 0:
             cls = "nia1-panic-empty-message" if (e["alg"] == 1 and kind == "mac" and e["pfn"].endswith("security.NIA1")) else "panic-empty-input"
         if verdict == "panic" and not e.get("plib"):
             raise Infra("panic outside the library in the driver: %s" % e.get("pfn"))
         what = "%s alg=%d bearer=%d dir=%d nbits=%d: %s (key=%s count=%s)" % (
             e["op"], e["alg"], e["bearer"], e["dir"], e["nbits"],
-            "panic in " + e["pfn"] if verdict == "panic" else "observed %s differs from the standard function (%s)" % (e["out"][:16], verdict),
+            "panic in " + e["pfn"] if verdict == "panic" else
+            "the slice returned by the previous call was changed by this call (held %s, expected the caller's own bytes)" % e["held"][:8] if verdict == "result-changed" else
+            "observed %s differs from the standard function (%s)" % (e["out"][:16], verdict),
             bytes(e["key"]).hex(), bytes(e["cnt"]).hex())
         obj = dict(case=case_of_event(e), observed=e,
                    how="harness/cmd/sec: sec replay [case] out.ndjson ; validate out.ndjson with spec/trace/%s" % trace_module)
